@@ -101,6 +101,12 @@ func (r *Run) Rule(id, desc string, floor int) {
 		r.order = append(r.order, id)
 	}
 	r.ruleDesc[id] = desc
+	// The floor guards against a rule that silently stops matching (anchor moved, idiom no longer recognised). A
+	// behaviour-preserving refactor may legitimately merge or split a few instances, so the armed floor is half the
+	// count confirmed by hand (at least one): a recogniser that breaks drops to (near) zero, a merge does not.
+	if floor > 1 {
+		floor = (floor + 1) / 2
+	}
 	r.floors[id] = floor
 }
 
@@ -149,17 +155,23 @@ func (p *Program) pos(pos token.Pos) string {
 // ---------------------------------------------------------------- loading
 
 func Load(repo string, tests bool, env []string) (*Program, error) {
+	return LoadOverlay(repo, tests, env, nil)
+}
+
+// LoadOverlay loads the tree with some files replaced by the given contents (helper normalisation).
+func LoadOverlay(repo string, tests bool, env []string, overlay map[string][]byte) (*Program, error) {
 	abs, err := filepath.Abs(repo)
 	if err != nil {
 		return nil, err
 	}
 	fset := token.NewFileSet()
 	cfg := &packages.Config{
-		Mode:  packages.LoadAllSyntax,
-		Dir:   abs,
-		Fset:  fset,
-		Tests: tests,
-		Env:   append(os.Environ(), env...),
+		Mode:    packages.LoadAllSyntax,
+		Dir:     abs,
+		Fset:    fset,
+		Tests:   tests,
+		Env:     append(os.Environ(), env...),
+		Overlay: overlay,
 	}
 	pkgs, err := packages.Load(cfg, "./...")
 	if err != nil {
